@@ -41,6 +41,8 @@ def check(run):
                          'writes to the session socket', 3)
     R.rule('C08.server', 'server-initiated close: Closing yielded before the echo; echo carries the message\'s code and '
                          'reason; no flag store before the event', 4)
+    from .common import event_fields as _event_fields
+    _event_fields(R, 'C08.server', ['Closed', 'Closing', 'Disconnected'])      # code / reason / graceful as constructed
     R.rule('C08.client', 'client-initiated close: Closed then closed=True; loop exits on is_closed; try-else closes the '
                          'socket and yields the only graceful Disconnected', 5)
     R.rule('C08.eof', 'EOF while not active leaves the loop gracefully; EOF while active fails the connection', 2)
